@@ -481,11 +481,21 @@ private:
 
         if (m_freeBlockVector.empty())
         {
-            XalanConstruct(
-                *m_memoryManager,
-                m_blockIndex.back(),
-                *m_memoryManager,
-                m_blockSize);
+            try
+            {
+                XalanConstruct(
+                    *m_memoryManager,
+                    m_blockIndex.back(),
+                    *m_memoryManager,
+                    m_blockSize);
+            }
+            catch(...)
+            {
+                // Don't leave the null placeholder in the index.
+                m_blockIndex.pop_back();
+
+                throw;
+            }
         }
         else
         {
